@@ -228,6 +228,58 @@ Theorem C16_old_walk_lost_rest_of_file :
 Proof. exact old_walk_lost_rest. Qed.
 Print Assumptions C16_old_walk_lost_rest_of_file.
 
+(* The queue holds NAMES (the configured `filename` list, the paths the HTTP endpoint resolved), and EVERY entry is
+   imported when its turn comes, whatever went through the queue before: for any tree and any list of entries - a path
+   that stands in it twice, two paths holding the same octets included, no NoDup anywhere - the unit's register and the
+   RIB behind the gate after the queue are the fold of the per-entry effect (open what the path holds, process_file,
+   apply what left the gate) over ALL entries in order, and the property's reading is the fold of i_file over them. *)
+Theorem C16_queue_entries_all_applied : forall fsys ps,
+  ((queue_run unit_start.1 unit_start.2 (queue_files fsys ps)).1, import (queue_files fsys ps)) =
+    fold_left (entry_step unit_start.1 fsys) ps (unit_start.2, rib_empty) /\
+  i_import (queue_files fsys ps) = fold_left (fun rb p => i_file rb (resolve fsys p)) ps ∅.
+Proof. exact queue_entries_all_applied. Qed.
+Print Assumptions C16_queue_entries_all_applied.
+
+(* A file that comes again is imported again: behind ANY queue fs it is processed once more from the register the queue
+   has left, and every UPDATE of an update file leaves the gate again as its Bulk (from any register). Witness (the
+   seeded change): A = announce 10.5/16, B = withdraw it; A, B, A - the same entry again, or the same octets under
+   another name - ends with the route ACTIVE in the RIB and in the property's reading (also with an Established->Idle
+   in between, for the reading); A, B - what a loop that skips "imported before" leaves - has it withdrawn. *)
+Theorem C16_repeat_is_reapplied :
+  (forall parent r f fs,
+     queue_run parent r (f :: fs ++ [f]) =
+     let '(r1, us1, _) := process_file parent r f in
+     let '(r2, us2) := queue_run parent r1 fs in
+     let '(r3, us3, _) := process_file parent r2 f in
+     (r3, us1 ++ us2 ++ us3)) /\
+  (forall parent r name recs p u,
+     update_file (FGood name recs) = true -> In (RMsg p (BUpdate u)) recs ->
+     exists id, In (UBulk (payloads_of id u)) (process_file parent r (FGood name recs)).1.2) /\
+  rib_lookup (import [file_ann; file_wd; file_ann]) (0, 5, 2) = Some (true, 3) /\
+  rib_lookup (import [file_ann; file_wd; file_ann_copy]) (0, 5, 2) = Some (true, 3) /\
+  rib_lookup (import [file_ann; file_wd]) (0, 5, 2) = Some (false, 3) /\
+  i_import [file_ann; file_wd; file_ann] !! (0, 5, pA) = Some (true, 3) /\
+  i_import [file_ann; file_down; file_ann_copy] !! (0, 5, pA) = Some (true, 3) /\
+  i_import [file_ann; file_wd] !! (0, 5, pA) = Some (false, 3).
+Proof. exact repeat_is_reapplied. Qed.
+Print Assumptions C16_repeat_is_reapplied.
+
+(* The file that is imported is the one the entry names - the whole path, not its last component: two trees that hold
+   the same under the queued paths give the same files, RIB and reading, whatever they hold elsewhere (a file of the
+   same name in another directory above all); writing a path changes what THAT path holds and no other. Witness:
+   `updates` and `rrc01/updates` hold different files; queueing rrc01/updates imports its announcement, not the other. *)
+Theorem C16_entry_imports_named_file :
+  (forall fsys fsys' ps, (forall p, In p ps -> resolve fsys p = resolve fsys' p) ->
+     queue_files fsys ps = queue_files fsys' ps /\
+     import (queue_files fsys ps) = import (queue_files fsys' ps) /\
+     i_import (queue_files fsys ps) = i_import (queue_files fsys' ps)) /\
+  (forall fsys p f q, resolve (store_write fsys p f) q = if bool_decide (p = q) then f else resolve fsys q) /\
+  resolve tree_same_names [1; 7] = file_ann /\
+  rib_lookup (import (queue_files tree_same_names [[1; 7]])) (0, 5, 2) = Some (true, 3) /\
+  rib_lookup (import (queue_files tree_same_names [[7]])) (0, 5, 2) = None.
+Proof. exact entry_imports_named_file. Qed.
+Print Assumptions C16_entry_imports_named_file.
+
 (* non-vacuity for the octet level: two UPDATEs that are malformed in exactly one half (a 200-bit NLRI behind a good
    one inside MP_UNREACH_NLRI next to a conventional announcement; the same inside MP_REACH_NLRI next to a
    conventional withdrawal) do not decode; between two good UPDATEs (withdraw 10.9.9.0/24, announce 10.9.8.0/24)
